@@ -1,4 +1,5 @@
 #![allow(dead_code)]
+mod connw;
 mod connx;
 mod explore;
 mod par;
@@ -43,6 +44,8 @@ fn main() {
             }
             let (repro, trace) = match r["engine"].as_str() {
                 Some("connx") => connx::replay(r),
+                Some("connw") => connw::replay(r),
+                Some("socketpair") => props::c12::replay_socketpair(r),
                 _ => {
                     eprintln!("unknown engine in replay file");
                     std::process::exit(2);
